@@ -23,8 +23,75 @@ def literal(sc, oi, res):
     return solvegen.case_literal(sc, oi, r2, lits), randsz
 
 
+def size_variants(sc, oi, res, max_size=5):
+    """for a call on a scenario with random-size lists: the same call with every size vector 0..max_size fixed (the size leaf
+    a constant, exactly that many random elements) - Coq literals `sat3 (...)`.  A call is satisfiable iff one of them is."""
+    import itertools
+    fields = sc["classes"][0]["fields"]
+    rs = [f["name"] for f in fields if f["kind"] == "list" and f.get("randsz")]
+    bmap = {tuple(p): v for p, v in zip(res["leaves_before"], res["before"])}
+    out = []
+    for sizes in itertools.product(range(max_size + 1), repeat=len(rs)):
+        want = dict(zip(rs, sizes))
+        paths, before = [], []
+        done = set()
+        for p in [tuple(x) for x in res["leaves_before"]]:
+            if p[0] in want:
+                if p[0] not in done:
+                    done.add(p[0])
+                    for i in range(want[p[0]]):
+                        paths.append((p[0], i))
+                        before.append(0)
+                    paths.append((p[0], "size"))
+                    before.append(want[p[0]])
+                continue
+            paths.append(p)
+            before.append(bmap[p])
+        lits = listgen.ListLits(sc, sc["root_cls"], paths, solvegen.track_state(sc, oi))
+        lits.size_const = True
+        r2 = dict(res, before=before, values=before, log=[], leaves_before=[list(p) for p in paths], leaves_after=[list(p) for p in paths])
+        out.append((sizes, "sat3 %s" % solvegen.case_literal(sc, oi, r2, lits)))
+    return out
+
+
+def randsz_satisfiability(ctx, scs, obs, tag):
+    """SolveFailure on a scenario with random-size lists: is there a size for which the statements (expanded over that many
+    elements by Rand/Unroll.v) have a solution?  Decided by enumeration inside Coq for every size vector 0..5"""
+    items = []
+    for si, (sc, o) in enumerate(zip(scs, obs)):
+        if not isinstance(o, dict) or "ops" not in o or not any(f.get("randsz") for f in sc["classes"][0]["fields"] if f["kind"] == "list"):
+            continue
+        for oi, (op, res) in enumerate(zip(sc["ops"], o["ops"])):
+            if op["op"] == "randomize" and res.get("outcome") == "SolveFailure" and op.get("free") is None:
+                try:
+                    items.append((si, oi, size_variants(sc, oi, res)))
+                except Exception as e:  # noqa
+                    ctx.tie_broken.append("cannot express the size variants of a failed call: %s" % e)
+    if not items:
+        return 0
+    files = []
+    for k, (si, oi, vs) in enumerate(items):
+        files.append(("%s_rsz_%d" % (tag, k), solve_common.HEADER + "Definition codes : list Z := %s.\nEval vm_compute in codes.\n" % clist([v for _, v in vs])))
+    outs = core.coq_eval_many(ctx, files, timeout=900)
+    for k, (si, oi, vs) in enumerate(items):
+        zs = core.parse_z_list(outs["%s_rsz_%d" % (tag, k)])
+        if zs is None or len(zs) != len(vs):
+            ctx.tie_broken.append("Coq evaluation of the size variants failed for scenario %d call %d" % (si, oi))
+            continue
+        sat = [sizes for (sizes, _), z in zip(vs, zs) if z == 1]
+        if sat:
+            core.add_violation(ctx, "SolveFailure on a call that has a solution: with list size(s) %s the statements, expanded over that many "
+                                    "elements, are satisfiable (decided by enumeration)" % (list(sat[0]),),
+                               {"scenario": solve_common.brief(scs[si], oi), "satisfiable_sizes": [list(x) for x in sat],
+                                "observed": {k2: obs[si]["ops"][oi].get(k2) for k2 in ("outcome", "before", "lists")}})
+    return len(items)
+
+
 def evaluate(ctx, scs, tag):
     obs = core.run_impl_parallel(ctx, "solve_impl.py", scs)
+    solve_common.report_busy(ctx, scs, obs)
+    n_rsz = randsz_satisfiability(ctx, scs, obs, tag)
+    ctx.coverage["randsz_failed_calls_examined_for_every_size"] = ctx.coverage.get("randsz_failed_calls_examined_for_every_size", 0) + n_rsz
     items = []
     crashed = []
     for si, (sc, o) in enumerate(zip(scs, obs)):
@@ -188,22 +255,31 @@ def run(ctx):
         for _ in range(r3.randint(1, 3)):
             pop = r3.randint(0, 4)
             lists.append({"pop": pop, "min": r3.choice([None, None, 0, min(pop, 1), min(pop, 2)]), "foreach": r3.choice([None, 5, 7])})
-        ocases.append({"lists": lists, "calls": 3})
+        edits = {}
+        for k in (1, 2):
+            if r3.random() < 0.4:
+                li = r3.randrange(len(lists))
+                edits[str(k)] = [[li, [100 * k + j for j in range(r3.randint(1, 3))]]]
+        ocases.append({"lists": lists, "calls": 3, "edits": edits})
     oobs = core.run_impl_parallel(ctx, "c04o_impl.py", ocases, nchunks=4)
     nviews = 0
     for c, o in zip(ocases, oobs):
         if o.get("_crash") or "crash" in o:
             core.add_violation(ctx, "library raised on an object with random-size lists of objects: %s" % str(o)[:300], {"case": c, "observed": str(o)[:1500]})
             continue
+        pops = [[10 * (i + 1) + j for j in range(l["pop"])] for i, l in enumerate(c["lists"])]      # the tags each list holds
         for k, rec in enumerate(o["calls"]):
+            for li, tags in c.get("edits", {}).get(str(k), []):
+                pops[li] = list(tags)
             if rec["outcome"] != "ok":
                 if rec["outcome"] != "SolveFailure":
                     core.add_violation(ctx, "call %d on random-size lists of objects ended with %s" % (k, rec["outcome"]), {"case": c, "observed": rec})
                     break
                 continue
             bad = None
-            for l, v in zip(c["lists"], rec["views"]):
+            for li, (l, v) in enumerate(zip(c["lists"], rec["views"])):
                 nviews += 1
+                l = dict(l, pop=len(pops[li]))
                 if isinstance(v["iter"], str) or isinstance(v["index"], str) or not (v["len"] == v["size"] == len(v["iter"]) == len(v["index"])) \
                         or v["iter"] != v["index"]:
                     bad = "len() %s, size %s, iteration %s, indexing %s disagree" % (v["len"], v["size"], v["iter"], v["index"])
@@ -213,6 +289,8 @@ def run(ctx):
                     bad = "foreach body (a < %d) violated by an exposed element: %s" % (l["foreach"], v["iter"])
                 elif any(e[0] < e[1] for e in v["iter"]):
                     bad = "an exposed element violates its own class constraint a >= b: %s" % (v["iter"],)
+                elif [e[2] for e in v["iter"]] != pops[li][:len(v["iter"])]:
+                    bad = "the list exposes the objects tagged %s, it holds (after clear / append) %s" % ([e[2] for e in v["iter"]], pops[li])
                 if bad:
                     break
             if bad:
